@@ -9,34 +9,56 @@ import Reduino.Lemmas.C07
   K07a); proved part: agreement on `LayoutOK` scripts and the invariances listed in the property.
 -/
 namespace Reduino.Props.C07
-open Reduino.Lang.Layout
+open Reduino.Lang.Layout Reduino.Lemmas.C07
 
 /-! ### character level -/
 
 /-- the result is the text itself, or the right-stripped prefix before a `#` of the text -/
 theorem strip_is_cut_at_hash (s : List Char) :
     stripInlineComment s = s ∨ ∃ pre post, s = pre ++ '#' :: post ∧ stripInlineComment s = rstrip pre := by
-  sorry
+  unfold stripInlineComment
+  cases h : stripGo {} [] s with
+  | none => left; rfl
+  | some r =>
+    right
+    obtain ⟨pre, post, h1, h2⟩ := stripGo_cut _ _ _ _ h
+    exact ⟨pre, post, h1, by simpa using h2⟩
 
 /-- text without `#` is returned unchanged; a `#` outside any quotes (no quote or backslash before it) cuts -/
 theorem strip_no_hash (s : List Char) (h : '#' ∉ s) : stripInlineComment s = s := by
-  sorry
+  simp [stripInlineComment, stripGo_no_hash _ _ _ h]
 
 theorem strip_plain_prefix (pre post : List Char) (h : ∀ c ∈ pre, c ≠ '#' ∧ c ≠ '\'' ∧ c ≠ '"' ∧ c ≠ '\\') :
     stripInlineComment (pre ++ '#' :: post) = rstrip pre := by
-  sorry
+  unfold stripInlineComment
+  show (stripGo ⟨false, false, false⟩ [] (pre ++ '#' :: post)).getD _ = _
+  rw [stripGo_plain _ _ _ h, stripGo_hash]
+  simp
 
 /-- a `#` inside a double-quoted string literal (without escapes) does not cut -/
 theorem strip_hash_in_string (a b c : List Char)
     (ha : ∀ x ∈ a, x ≠ '#' ∧ x ≠ '\'' ∧ x ≠ '"' ∧ x ≠ '\\') (hb : ∀ x ∈ b, x ≠ '"' ∧ x ≠ '\\')
     (hc : ∀ x ∈ c, x ≠ '#' ∧ x ≠ '\'' ∧ x ≠ '"' ∧ x ≠ '\\') :
     stripInlineComment (a ++ '"' :: b ++ '"' :: c) = a ++ '"' :: b ++ '"' :: c := by
-  sorry
+  unfold stripInlineComment
+  have hc' : '#' ∉ c := fun hm => (hc _ hm).1 rfl
+  have : stripGo {} [] (a ++ '"' :: b ++ '"' :: c) = none := by
+    show stripGo ⟨false, false, false⟩ [] _ = none
+    rw [List.append_assoc, stripGo_plain _ _ _ ha]
+    have e : stripGo ⟨false, false, false⟩ (a.reverse ++ []) ('"' :: b ++ '"' :: c)
+        = stripGo ⟨false, true, false⟩ ('"' :: (a.reverse ++ [])) (b ++ '"' :: c) := by
+      simp [stripGo]
+    rw [e, stripGo_inDouble _ _ _ hb, stripGo_no_hash _ _ _ hc']
+  rw [this]; rfl
 
 /-- indentation: `n` spaces count `n`, `n` tabs count `4 n`; scaling a space indentation by `k` scales the count -/
 theorem indentOf_spaces (n : Nat) (rest : List Char) (h : rest.head? ≠ some ' ' ∧ rest.head? ≠ some '\t') :
     indentOf (List.replicate n ' ' ++ rest) = n ∧ indentOf (List.replicate n '\t' ++ rest) = 4 * n := by
-  sorry
+  induction n with
+  | zero => simp [indentOf_other rest h]
+  | succ n ih =>
+    simp only [List.replicate_succ, List.cons_append, indentOf, ih.1, ih.2]
+    omega
 
 /-! ### block structure -/
 
@@ -77,7 +99,10 @@ end
 /-- removing blank lines never changes what the front end sees -/
 theorem blank_lines_invisible (ls : List Line) :
     reduinoBlocks (ls.filter (·.kind ≠ .blank)) = reduinoBlocks ls := by
-  sorry
+  show nested ((noBlank ls).length + 1) (noBlank ls) = nested _ ls
+  have h := noBlank_length ls
+  rw [(fuel_indep _ (ls.length + 1) (noBlank ls) (Nat.lt_succ_self _) (by omega)).1]
+  exact (nested_noBlank _ ls (Nat.lt_succ_self _)).1
 
 /-- on `LayoutOK` scripts comment-only lines are invisible too -/
 theorem comment_lines_invisible (ls : List Line) (h : LayoutOK ls = true) :
@@ -87,13 +112,17 @@ theorem comment_lines_invisible (ls : List Line) (h : LayoutOK ls = true) :
 /-- scaling every indentation by `k ≥ 1` (indent unit) changes nothing -/
 theorem indent_scaling_invisible (ls : List Line) (k : Nat) (hk : 1 ≤ k) :
     reduinoBlocks (ls.map fun l => { l with indent := k * l.indent }) = reduinoBlocks ls := by
-  sorry
+  show nested ((ls.map (scale k)).length + 1) (ls.map (scale k)) = nested _ ls
+  rw [List.length_map]
+  exact (nested_scale k hk _ ls).1
 
 /-- trailing comments on simple statements and on block-opening headers (if/while/for/try — inside
     `_parse_simple_lines`) are invisible -/
 theorem trailing_on_noncontinuation_invisible (ls : List Line) :
     reduinoBlocks (ls.map fun l => if isCont l then l else { l with trailing := false }) = reduinoBlocks ls := by
-  sorry
+  show nested ((ls.map untrail).length + 1) (ls.map untrail) = nested _ ls
+  rw [List.length_map]
+  exact (nested_untrail _ ls).1
 
 /-- proved part: on code free of blank/comment lines and of trailing comments on continuation headers, the front end's
     forest is Python's -/
@@ -101,35 +130,49 @@ theorem blocks_eq_py_partial (ls : List Line) (hcode : ∀ l ∈ ls, l.kind ≠ 
     (htr : ∀ l ∈ ls, isCont l = true → l.trailing = false)
     (hwf : ∀ fuel, cleanList (nested fuel ls) = true) :
     reduinoBlocks ls = pyBlocks ls := by
-  sorry
+  have hpy : pyLines ls = ls := by
+    unfold pyLines
+    rw [List.filter_eq_self]
+    intro l hl
+    simpa using hcode l hl
+  unfold reduinoBlocks pyBlocks
+  rw [hpy]
+  exact (nested_eq_py cleanList (by intro t ts; simp [cleanList, clean])
+    (by intro t ts; simp [cleanList, clean]) (by intro t h cs ts; simp [cleanList, clean])
+    _ ls hcode htr (Nat.lt_succ_self _)).1 (hwf _)
 
 /-! ### the three mechanisms by which the full statement fails (known finding K07a) -/
 
 theorem trailing_comment_on_else_counterexample :
     let ls : List Line := [⟨0, .header .ifH, false, 1⟩, ⟨4, .simple, false, 2⟩, ⟨0, .header .elseH, true, 3⟩, ⟨4, .simple, false, 4⟩]
     reduinoBlocks ls ≠ pyBlocks ls := by
-  sorry
+  intro ls h
+  simp [ls, reduinoBlocks, nested, nested.chain, collectBlock, pyBlocks, pyLines, pyParse, pyBlock] at h
 
 theorem dedented_comment_counterexample :
     let ls : List Line := [⟨0, .header .whileH, false, 1⟩, ⟨4, .simple, false, 2⟩, ⟨0, .comment, false, 0⟩, ⟨4, .simple, false, 3⟩]
     reduinoBlocks ls ≠ pyBlocks ls := by
-  sorry
+  intro ls h
+  simp [ls, reduinoBlocks, nested, collectBlock, pyBlocks, pyLines, pyParse, pyBlock] at h
 
 theorem comment_before_else_counterexample :
     let ls : List Line := [⟨0, .header .ifH, false, 1⟩, ⟨4, .simple, false, 2⟩, ⟨0, .comment, false, 0⟩, ⟨0, .header .elseH, false, 3⟩, ⟨4, .simple, false, 4⟩]
     reduinoBlocks ls ≠ pyBlocks ls := by
-  sorry
+  intro ls h
+  simp [ls, reduinoBlocks, nested, nested.chain, collectBlock, pyBlocks, pyLines, pyParse, pyBlock] at h
 
 /-- top level: a trailing comment on `while True:` empties the main loop -/
 theorem trailing_comment_on_main_loop_counterexample :
     let ls : List Line := [⟨0, .simple, false, 1⟩, ⟨0, .header .whileTrue, true, 9⟩, ⟨4, .simple, false, 2⟩]
     (reduinoProgram ls).loop = [] ∧ (reduinoProgram (ls.map fun l => { l with trailing := false })).loop ≠ [] := by
-  sorry
+  intro ls
+  simp [ls, reduinoProgram, topLevel, reduinoBlocks, nested, collectBlock]
 
 theorem C07_statement_false : ¬ C07_statement := by
-  sorry
+  intro h
+  exact trailing_comment_on_else_counterexample (h _)
 
 example : LayoutOK [⟨0, .header .ifH, true, 1⟩, ⟨4, .comment, false, 0⟩, ⟨4, .simple, true, 2⟩, ⟨0, .header .elseH, false, 3⟩, ⟨4, .simple, false, 4⟩] = true := by
-  sorry
+  decide
 
 end Reduino.Props.C07
